@@ -3,6 +3,7 @@
 package upstream
 
 import (
+	"context"
 	"fmt"
 	"net"
 	"sync"
@@ -64,15 +65,31 @@ type Server struct {
 	wg     sync.WaitGroup
 	events []string
 	stopCh chan struct{}
+	wake   chan struct{} // poked by SetScript: ends a blocked Accept so that the new script takes effect
+	gen    int64         // incremented by SetScript: ends a refusal window
+}
+
+// ListenRcvBuf, when > 0, is set as SO_RCVBUF on the listening socket (inherited by accepted connections), so that a peer
+// that does not read fills up after a few kilobytes and the sender blocks in write.
+var ListenRcvBuf int
+
+func listen(addr string) (net.Listener, error) {
+	lc := net.ListenConfig{Control: func(network, address string, rc syscall.RawConn) error {
+		if ListenRcvBuf > 0 {
+			_ = rc.Control(func(fd uintptr) { _ = syscall.SetsockoptInt(int(fd), syscall.SOL_SOCKET, syscall.SO_RCVBUF, ListenRcvBuf) })
+		}
+		return nil
+	}}
+	return lc.Listen(context.Background(), "tcp", addr)
 }
 
 // New starts a server on 127.0.0.1:0.
 func New(name string, clock *Clock, script []Step) (*Server, error) {
-	ln, err := net.Listen("tcp", "127.0.0.1:0")
+	ln, err := listen("127.0.0.1:0")
 	if err != nil {
 		return nil, err
 	}
-	s := &Server{Name: name, clock: clock, ln: ln, addr: ln.Addr().String(), script: script, conns: map[net.Conn]bool{}, stopCh: make(chan struct{})}
+	s := &Server{Name: name, clock: clock, ln: ln, addr: ln.Addr().String(), script: script, conns: map[net.Conn]bool{}, stopCh: make(chan struct{}), wake: make(chan struct{}, 1)}
 	s.wg.Add(1)
 	go s.loop()
 	return s, nil
@@ -86,7 +103,16 @@ func (s *Server) SetScript(script []Step) {
 	s.mu.Lock()
 	s.script = script
 	s.at = 0
+	s.gen++
+	ln := s.ln
 	s.mu.Unlock()
+	select {
+	case s.wake <- struct{}{}:
+	default:
+	}
+	if tl, ok := ln.(*net.TCPListener); ok {
+		_ = tl.SetDeadline(time.Now()) // wakes a blocked Accept (no effect on a closed listener)
+	}
 }
 
 // ScriptExhausted reports whether every scripted step has been used (the server is healthy from then on).
@@ -135,15 +161,27 @@ func (s *Server) loop() {
 			s.mu.Unlock()
 			_ = ln.Close()
 			s.note("refuse %dms", st.DelayMs)
-			select {
-			case <-time.After(time.Duration(st.DelayMs) * time.Millisecond):
-			case <-s.stopCh:
-				return
+			s.mu.Lock()
+			g0 := s.gen
+			s.mu.Unlock()
+			end := time.Now().Add(time.Duration(st.DelayMs) * time.Millisecond)
+			for time.Now().Before(end) {
+				select {
+				case <-s.stopCh:
+					return
+				case <-time.After(2 * time.Millisecond):
+				}
+				s.mu.Lock()
+				changed := s.gen != g0
+				s.mu.Unlock()
+				if changed {
+					break // a new script was installed
+				}
 			}
 			var nl net.Listener
 			var err error
 			for i := 0; i < 200; i++ {
-				nl, err = net.Listen("tcp", s.addr)
+				nl, err = listen(s.addr)
 				if err == nil {
 					break
 				}
@@ -166,6 +204,16 @@ func (s *Server) loop() {
 		s.mu.Lock()
 		ln := s.ln
 		s.mu.Unlock()
+		select {
+		case <-s.wake:
+		default:
+		}
+		if tl, ok := ln.(*net.TCPListener); ok {
+			_ = tl.SetDeadline(time.Time{})
+		}
+		if st, ok := s.peekStep(); ok && st.Kind == "refuse" {
+			continue
+		}
 		conn, err := ln.Accept()
 		if err != nil {
 			s.mu.Lock()
